@@ -19,7 +19,7 @@ CONSTANTS Circuits,     \* set of circuit names
 
 Backends == {"groth16", "plonk"}
 Hashes == {"default", "sha256", "sha512"}     \* "sha512": a digest wider than a field element
-Witnesses == {"valid", "valid2", "badpublic", "badsecret"}
+Witnesses == {"valid", "valid2", "badpublic", "badsecret", "short", "long"}   \* short / long: a witness with one value missing / in excess
 
 VARIABLES cfg, done
 vars == <<cfg, done>>
